@@ -301,8 +301,12 @@ def eval_test(c, assign):
     if c[0] == "not":
         return not eval_test(c[1], assign)
     if c[0] == "bool":
-        vals = [eval_test(x, assign) for x in c[2]]
-        return any(vals) if c[1] == "or" else all(vals)
+        # short-circuit, as evaluated: later operands matter only if the earlier ones did not decide
+        for x in c[2]:
+            v = eval_test(x, assign)
+            if v == (c[1] == "or"):
+                return v
+        return c[1] != "or"
     if c[0] == "cond":
         return eval_test(c[2], assign) if eval_test(c[1], assign) else eval_test(c[3], assign)
     raise KeyError(c)
